@@ -2,10 +2,20 @@
    input  : (mode payload)
      mode 0 : payload = program   -> Model.Builder.doc_walk (docstrings left raw: the harness applies inspect.cleandoc)
      mode 1 : payload = program   -> ( Spec.PyBind.py_exec , does py_exec_names accept? , does py_exec_strict accept? )
+     mode 3 : payload = value     -> the interpreted translated code of _annotation_for_value (Model/BuilderIR.v on Gen/BuilderCode.v)
      mode 2 : payload = value     -> ( annotation_for_value v , type description of v )                       *)
 From Coq Require Import ZArith NArith List Bool.
-From PydoctorVerif Require Import Base.Sexp Model.MiniPy Model.Infer Model.Builder Spec.PyBind.
+From PydoctorVerif Require Import Base.Sexp Model.MiniPy Model.Infer Model.Builder Model.BuilderIR Gen.BuilderCode Spec.PyBind.
 Import ListNotations.
+
+(* annotation trees on the wire: (0 name) | (1 tree..) tuple | (2) ellipsis | (3 value slice) *)
+Fixpoint past_sexp (a : past) : sexp :=
+  match a with
+  | PName n => L [A 0; of_text n]
+  | PTuple l => L (A 1 :: map past_sexp l)
+  | PEllipsis => L [A 2]
+  | PSubscript v s => L [A 3; past_sexp v; past_sexp s]
+  end.
 
 Definition run (s : sexp) : sexp :=
   let payload := nth_s 1 s in
@@ -16,5 +26,18 @@ Definition run (s : sexp) : sexp :=
               of_bool (match py_exec_strict (prog_of_sexp payload) with Some _ => true | None => false end)]
   | 2%Z => let v := value_of_sexp (sexp_depth payload) payload in
            L [of_option annot_sexp (annotation_for_value v); ty_sexp v]
+  | 3%Z => (* the body of _annotation_for_value translated from the current source, interpreted (its callee
+              _annotation_for_elements is the translated body as well, interpreted with the model as ITS callee) *)
+           let v := value_of_sexp (sexp_depth payload) payload in
+           let elems := fun l => match run_body [VSeq l] model_value model_elems (fun _ => None) (fun _ => VNone) []
+                                                code_annotation_for_elements KMethod with
+                                 | RReturn (VPast a) _ => Some a
+                                 | _ => None
+                                 end in
+           match run_body [ival_of_value v] model_value elems (fun _ => None) (fun _ => VNone) [] code_annotation_for_value KMethod with
+           | RReturn (VPast a) _ => L [A 1; past_sexp a]
+           | RReturn VNone _ => L [A 0]
+           | _ => bad_input
+           end
   | _ => bad_input
   end.
